@@ -125,7 +125,9 @@ def D(s):
                   "d": lambda: {k: D(x) for k, x in a.items()}, "o": lambda: Obj({k: D(x) for k, x in a.items()}),
                   "cls": lambda: pick(CLASSES, a), "new": lambda: pick(CLASSES, a[0])(*[D(x) for x in a[1:]]),
                   "fn": lambda: pick(FUNCS, a), "call": lambda: make_callable(a),
-                  "p": lambda: os.path.join(SCRATCH, a)}
+                  # relative to the private scratch directory (the harness chdirs into it): a string path is also an iterable of
+                  # one-character relative paths, which must not resolve against a directory other processes write to
+                  "p": lambda: a}
         if tag == "exc":
             e = D({"new": a})
             return (type(e), e, None)
@@ -515,6 +517,7 @@ def main(argv):
     import testtools
     print("C07 replay against testtools from %s" % os.path.dirname(testtools.__file__))
     make_scratch()
+    os.chdir(SCRATCH)
     try:
         if args.scenario is not None:
             report = judge(json.loads(args.scenario))
